@@ -71,6 +71,10 @@ def run_loop(cfg):
     proxies = {k: (wrap(k, f) if k in ("predict", "correct_accel", "correct_mag", "initialize") else f) for k, f in orig.items()}
     params = {"sim/enable_noise": False, "sim/mag_decl": cfg["decl"], "mrp/mag_decl": cfg["decl"], "sim/mag_incl": cfg["incl"],
               "sim/dt_sim": cfg["dt_sim"], "sim/dt_imu": cfg["dt_imu"], "sim/dt_mag": cfg["dt_mag"], "logger/dt": cfg["dt_log"]}
+    # settings a user writes as Python ints stay ints (mag_decl = 0, mag_incl = 0): they are legitimate values of float-valued parameters
+    for k_ in ("sim/mag_decl", "mrp/mag_decl", "sim/mag_incl"):
+        if float(params[k_]) == int(params[k_]):
+            params[k_] = int(params[k_])
     p = {"tf": cfg["tf"], "estimators": ["mrp"], "x0": list(cfg["x0"]), "initialize": bool(cfg["initialize"]), "params": params}
     # the estimator callbacks run inside core.run; tag events with the simulation time via a clock probe
     import cyecca.sim.uros as uros
@@ -114,13 +118,21 @@ def run_loop(cfg):
     rows = []
     every = cfg.get("row_every", 10)
     worst_att_5 = 0.0; worst_b_15 = 0.0
-    for i in range(0, len(log), every):
+    # sampled rows (every `every`-th) plus EVERY row in which the logged truth and the logged estimate carry different
+    # time stamps: the log array is the observable of the property, and a row that pairs a fresher truth with an older
+    # estimate shows an attitude error of rate x skew
+    idx = set(range(0, len(log), every))
+    for i in range(len(log)):
+        sa_, ea_ = log[i]["sim_attitude"], log[i]["mrp_attitude"]
+        if np.isfinite(sa_["time"]) and np.isfinite(ea_["time"]) and sa_["time"] != ea_["time"]:
+            idx.add(i)
+    for i in sorted(idx):
         r = log[i]
         t = float(r["time"])
         sa = r["sim_attitude"]; ea = r["mrp_attitude"]; imu = r["imu"]; mag = r["mag"]
         nan = 0
         row = {"tid": tid, "e": "row", "t_us": int(round(t * 1e6)), "att": -1, "b": [-1, -1, -1], "am": -1, "ad": -1, "mm": -1, "md": -1, "nan": 0}
-        if np.isfinite(sa["time"]) and np.isfinite(ea["time"]) and sa["time"] == ea["time"]:
+        if np.isfinite(sa["time"]) and np.isfinite(ea["time"]):
             qe = np.array(ea["q"], float); qt = np.array(sa["q"], float)
             if not (np.all(np.isfinite(qe)) and np.all(np.isfinite(ea["b"]))):
                 nan = 1
